@@ -584,7 +584,9 @@ impl Template {
                 }
                 (Width, FirstStyle | Literal) if !buf.is_empty() => {
                     if let Some(TemplatePart::Placeholder { width, .. }) = parts.last_mut() {
-                        *width = Some(buf.parse().unwrap());
+                        // The digits may not fit the width type
+                        let parsed = buf.parse().map_err(|_| TemplateError { next: c, state })?;
+                        *width = Some(parsed);
                         buf.clear();
                     }
                 }
